@@ -264,6 +264,7 @@ func genC13(seed uint64, tier string) *plan.Plan {
 		// ingested is exported exactly once - and the held-iff-scheduled bijection.
 		pl.Cfg["burst"] = 1
 		pl.Cfg["keys"] = int64(20 + r.IntN(130))
+		pl.Cfg["workers"] = []int64{1, 2, 3}[r.IntN(3)]
 		pl.Cfg["active_ms"], pl.Cfg["inactive_ms"] = 600000, 150
 		pl.Cfg["max_steps"] = 20_000_000
 		pl.Cfg["max_syncs"] = 2_000_000
@@ -279,6 +280,7 @@ func genC13(seed uint64, tier string) *plan.Plan {
 	// one more 5-tuple than the tasks send valid records for: it only ever sees records that have to
 	// be refused (an element missing), so no flow may ever exist for it
 	pl.Cfg["keys"], pl.Cfg["tasks"] = int64(nk+1), int64(nt)
+	pl.Cfg["workers"] = []int64{1, 1, 2, 3}[r.IntN(4)] // the configured pool size says nothing about who else calls in
 	pl.Cfg[fmt.Sprintf("cat%d", nk)] = int64(catIntra)
 	pl.Cfg[fmt.Sprintf("v6%d", nk)] = int64(r.IntN(2))
 	// timeouts are not multiples of 7 ms and every clock advance is: no scan lands exactly on a deadline
